@@ -69,11 +69,14 @@ CONSTANTS T,            \* start ticks 1..T, end ticks 1..T+1
           PresetSpans,  \* preset End - Start ranges over this set (subset of Nat)
           AnyFile,      \* TRUE: any eligible released file; FALSE: the lowest key
           Deletes,      \* TRUE: Delete enabled
+          MaxDelOff,    \* Delete's resolver offsets so, eo in 0..MaxDelOff (units)
           FixBackwards, \* TRUE: model the repaired validateCommitRange
           MaxPtrs, MaxFiles, MaxFileSize   \* state constraint of the exhaustive run
 
 VARIABLES pointers, files, writers, res, op
 vars == <<pointers, files, writers, res, op>>
+\* VIEW of the exhaustive run: res/op are outputs of the last call, never read by an action
+View == <<pointers, files, writers>>
 
 Slots == 1..W
 MAXT == T + 2
@@ -184,10 +187,12 @@ OpenWriter(w, s, pe) ==
              LET fs == Acquire(files, f) IN
              /\ files' = fs
              /\ writers' = [writers EXCEPT ![w] =
-                   [st |-> "open", start |-> s, orig |-> s, preset |-> pe # 0,
-                    end |-> IF pe # 0 THEN pe ELSE NextStart(pointers, s),
+                   [st |-> "open", start |-> s, orig |-> IF Deletes THEN s ELSE 0,
+                    preset |-> pe # 0, end |-> pe,
                     prev |-> 0, len |-> 0, file |-> f, off |-> fs[f].size]]
-             /\ res' = "ok" /\ op' = [o EXCEPT !.f = f]
+             \* w.End of a writer without preset End (never read again by the code
+             \* paths modelled here) is reported through op.ce, not kept in the state
+             /\ res' = "ok" /\ op' = [o EXCEPT !.f = f, !.ce = IF pe # 0 THEN pe ELSE NextStart(pointers, s)]
              /\ UNCHANGED pointers
 
 Write(w, n) ==
@@ -291,7 +296,7 @@ Next ==
   \/ \E w \in Slots, e \in 1..(T + 1) : Commit(w, e)
   \/ \E w \in Slots : CloseWriter(w)
   \/ \E s \in 1..T, n \in 1..MaxWrite : \E e \in PresetEnds(s) \ {0} : WriteDomain(s, e, n)
-  \/ \E a \in 1..T, b \in 1..(T + 1), so \in 0..MaxWrite, eo \in 0..MaxWrite : Delete(a, b, so, eo)
+  \/ \E a \in 1..T, b \in 1..(T + 1), so \in 0..MaxDelOff, eo \in 0..MaxDelOff : Delete(a, b, so, eo)
 Spec == Init /\ [][Next]_vars
 
 Bound == /\ Len(pointers) <= MaxPtrs /\ Len(files) <= MaxFiles
@@ -333,18 +338,37 @@ WritersConsistent ==
 
 \* the binary search / fast paths compute the overlap relation on every reachable index
 Probes == {TR(s, e) : s \in 0..(T + 2), e \in 0..(T + 2)}
-SearchAgrees ==
+SearchAgreesOn(ptrs) ==
   \A tr \in {q \in Probes : q.s <= q.e} :
-     LET r == Search(pointers, tr) IN
-     /\ r.hit <=> OverlapIdx(pointers, tr) # {}
-     /\ r.hit => r.i \in OverlapIdx(pointers, tr)
-     /\ ~r.hit => r.i = CountLE(pointers, tr.s)
-InsertAgrees ==
+     LET r == Search(ptrs, tr) IN
+     /\ r.hit <=> OverlapIdx(ptrs, tr) # {}
+     /\ r.hit => r.i \in OverlapIdx(ptrs, tr)
+     /\ ~r.hit => r.i = CountLE(ptrs, tr.s)
+InsertAgreesOn(ptrs) ==
   \A tr \in {q \in Probes : q.s < q.e} :
-     LET r == CodeInsert(pointers, Ptr(tr.s, tr.e, 1, 0, 1)) IN
-     /\ r.ok <=> OverlapIdx(pointers, tr) = {}
-     /\ r.ok => /\ Len(r.ptrs) = Len(pointers) + 1
+     LET r == CodeInsert(ptrs, Ptr(tr.s, tr.e, 1, 0, 1)) IN
+     /\ r.ok <=> OverlapIdx(ptrs, tr) = {}
+     /\ r.ok => /\ Len(r.ptrs) = Len(ptrs) + 1
                 /\ \A i \in 1..(Len(r.ptrs) - 1) : r.ptrs[i].s < r.ptrs[i + 1].s
+                /\ \A i, j \in 1..Len(r.ptrs) : i < j => r.ptrs[i].e <= r.ptrs[j].s
+\* index.update replaces the pointer with the same start iff the new range stays clear
+\* of every OTHER pointer (checking the two neighbours is enough on a sorted index)
+UpdateAgreesOn(ptrs) ==
+  \A k \in 1..Len(ptrs) : \A e \in 0..(T + 2) :
+     LET p == Ptr(ptrs[k].s, e, 1, 0, 1)
+         r == CodeUpdate(ptrs, p)
+         meets == \E j \in 1..Len(ptrs) : j # k /\ Stamps(PR(p)) \cap Stamps(PR(ptrs[j])) # {}
+     IN ptrs[k].s < e => /\ r.c \in {"ok", "conflict"}
+                         /\ (r.c = "conflict") <=> meets
+                         /\ r.c = "ok" => r.ptrs = [ptrs EXCEPT ![k] = p]
+\* NextStart (index.getGE on a stamp outside all data) = start of the next pointer
+NextStartAgreesOn(ptrs) ==
+  \A t \in 0..(T + 2) :
+     (\A i \in 1..Len(ptrs) : ~ContainsStamp(PR(ptrs[i]), t)) =>
+        LET later == {ptrs[i].s : i \in {j \in 1..Len(ptrs) : ptrs[j].s > t}}
+        IN NextStart(ptrs, t) = IF later = {} THEN MAXT ELSE SetMin(later)
+SearchAgrees == SearchAgreesOn(pointers)
+InsertAgrees == InsertAgreesOn(pointers)
 
 ---------------------------------------------------------------------------
 (* action properties: the statement's second sentence *)
